@@ -255,10 +255,12 @@ bool
 jose_jwe_enc_cek(jose_cfg_t *cfg, json_t *jwe, const json_t *cek,
                  const void *pt, size_t ptl)
 {
-    jose_io_auto_t *i = NULL;
-    jose_io_auto_t *o = NULL;
+    /* ct/ctl are written by the destructor of o: they must outlive it,
+     * i.e. be declared before the auto-cleaned IO objects. */
     void *ct = NULL;
     size_t ctl = 0;
+    jose_io_auto_t *i = NULL;
+    jose_io_auto_t *o = NULL;
 
     o = jose_io_malloc(cfg, &ct, &ctl);
     i = jose_jwe_enc_cek_io(cfg, jwe, cek, o);
@@ -458,11 +460,13 @@ void *
 jose_jwe_dec_cek(jose_cfg_t *cfg, const json_t *jwe, const json_t *cek,
                  size_t *ptl)
 {
+    /* pt (and *ptl) are written by the destructor of o: declared before the
+     * auto-cleaned IO objects so that they outlive them. */
+    void *pt = NULL;
     jose_io_auto_t *d = NULL;
     jose_io_auto_t *i = NULL;
     jose_io_auto_t *o = NULL;
     const char *ct = NULL;
-    void *pt = NULL;
     size_t ctl = 0;
 
     if (json_unpack((json_t *) jwe, "{s:s%}", "ciphertext", &ct, &ctl) < 0)
